@@ -439,3 +439,128 @@ Definition default_clash {blob} (E : env blob) (a b : part blob) : bool :=
   && in_table (deftbl E) (lower (ext (p_name a))) (p_ct a)
   && in_table (deftbl E) (lower (ext (p_name b))) (p_ct b)
   && negb (str_eqb (p_ct a) (p_ct b)).
+
+(** ---- vocabulary of the theorems (props/C01.v, props/C16.v) ---- *)
+
+(** reachability along a successor function *)
+Inductive reach (g : str -> list str) (s : str) : str -> Prop :=
+| r0 : reach g s s
+| r1 x y : reach g s x -> In y (g x) -> reach g s y.
+
+(** the names the relationship graph of [p] reaches from the package root *)
+Definition reachable {blob} (E : env blob) (p : phys blob) (x : str) : Prop :=
+  reach (succs E p) root x.
+
+(** what is assumed of lxml: decoding what was encoded gives it back; parsing and
+    serialising a serialised payload changes nothing *)
+Definition codec_ok {blob} (E : env blob) : Prop :=
+  (forall l, dec_rels E (enc_rels E l) = Some l) /\
+  (forall c, dec_ct E (enc_ct E c) = Some c) /\
+  (forall b b', reser E b = Some b' -> reser E b' = Some b').
+
+(** the tables of the writer use lower-case extensions, each initial default once *)
+Definition env_ok {blob} (E : env blob) : Prop :=
+  NoDup (map fst (initdefs E)) /\ (forall kv, In kv (initdefs E) -> lower (fst kv) = fst kv).
+
+(** a part name: normalised, not the content types item, not shaped like a rels item *)
+Definition part_name (x : str) : Prop :=
+  exists P, wf_name P /\ P <> [] /\ x = render P /\ x <> ct_uri /\
+            ~ (exists d f, P = d ++ [s_rels_dir; f]).
+
+(** what a relationship means: id, type, mode, and the part it resolves to (or the
+    external reference text) *)
+Definition rel_sem (src : str) (r : rel) : str * str * bool * str :=
+  (r_id r, r_type r, is_ext r,
+   if is_ext r then r_target r else resolve (baseURI src) (r_target r)).
+
+(** a well-formed package whose internal relationships all resolve *)
+Definition wf {blob} (E : env blob) (p : phys blob) : Prop :=
+  (* the content types item is there, and gives every reachable part a type; payloads
+     of XML-class parts parse *)
+  (exists cb c, lookup ct_uri p = Some cb /\ dec_ct E cb = Some c /\
+     forall x, reachable E p x -> x <> root ->
+       exists ct b, ct_lookup c x = Ok ct /\ lookup x p = Some b /\
+                    (is_xml_ct E ct = true -> exists b', reser E b = Some b')) /\
+  (* rels items of reachable sources decode, ids are unique, modes are Internal or
+     External, no target is the package itself *)
+  (forall x, reachable E p x -> exists rs, rels_for E p x = Some rs /\ NoDup (map r_id rs) /\
+       forall r, In r rs -> r_mode r <> MOther /\
+                            (is_ext r = false -> resolve (baseURI x) (r_target r) <> root)) /\
+  (* reachable names are part names, unique also up to case *)
+  (forall x, reachable E p x -> x <> root -> part_name x) /\
+  (forall x y, reachable E p x -> reachable E p y -> lower x = lower y -> x = y).
+
+(** content type the input package declares for a name (total form) *)
+Definition ct_in {blob} (E : env blob) (p : phys blob) (x : str) : res str :=
+  match lookup ct_uri p with
+  | Some cb => match dec_ct E cb with Some c => ct_lookup c x | None => Err OtherErr end
+  | None => Err KeyErr
+  end.
+
+(** no two reachable parts share an extension (up to case) while carrying different
+    content types that the default table both lists for that extension *)
+Definition no_default_clash {blob} (E : env blob) (p : phys blob) : Prop :=
+  forall x y cx cy, reachable E p x -> reachable E p y -> x <> root -> y <> root ->
+    ct_in E p x = Ok cx -> ct_in E p y = Ok cy ->
+    lower (ext x) = lower (ext y) ->
+    in_table (deftbl E) (lower (ext x)) cx = true ->
+    in_table (deftbl E) (lower (ext y)) cy = true -> cx = cy.
+
+(** two physical packages with the same members: same names, same bytes under each *)
+Definition same_package {blob} (a b : phys blob) : Prop :=
+  (forall n, In n (map fst a) <-> In n (map fst b)) /\ (forall n, lookup n a = lookup n b).
+
+(** ---- decidable forms of the side conditions (sound, see proofs/Opc_proofs.v);
+    used for the non-vacuity examples and printed by the runner so that the check can
+    confirm that its well-formed stream meets the hypothesis of the theorems ---- *)
+
+Fixpoint nodupb (l : list str) : bool :=
+  match l with [] => true | x :: l' => negb (mem_str x l') && nodupb l' end.
+
+Definition part_nameb (x : str) : bool :=
+  match x with
+  | [] => false
+  | c0 :: r =>
+      let P := split_on c_slash r in
+      is_slash c0 && forallb wf_segb P && negb (str_eqb x ct_uri)
+      && negb (match rev P with _ :: d :: _ => str_eqb d s_rels_dir | _ => false end)
+  end.
+
+Definition wfb {blob} (E : env blob) (p : phys blob) : bool :=
+  let L := xml_rels_names E p in
+  mem_str root L
+  && forallb (fun x => forallb (fun y => mem_str y L) (succs E p x)) L
+  && match lookup ct_uri p with
+     | None => false
+     | Some cb =>
+       match dec_ct E cb with
+       | None => false
+       | Some c =>
+           forallb (fun x => str_eqb x root ||
+                      match ct_lookup c x, lookup x p with
+                      | Ok ct, Some b => negb (is_xml_ct E ct)
+                                         || match reser E b with Some _ => true | None => false end
+                      | _, _ => false
+                      end) L
+       end
+     end
+  && forallb (fun x => match rels_for E p x with
+                       | None => false
+                       | Some rs =>
+                           nodupb (map r_id rs)
+                           && forallb (fun r => match r_mode r with MOther => false | _ => true end
+                                                && (is_ext r || negb (str_eqb (resolve (baseURI x) (r_target r)) root))) rs
+                       end) L
+  && forallb (fun x => str_eqb x root || part_nameb x) L
+  && nodupb (map lower L).
+
+Definition no_default_clashb {blob} (E : env blob) (p : phys blob) : bool :=
+  let L := xml_rels_names E p in
+  forallb (fun x => forallb (fun y =>
+    match ct_in E p x, ct_in E p y with
+    | Ok cx, Ok cy =>
+        negb (str_eqb (lower (ext x)) (lower (ext y))
+              && in_table (deftbl E) (lower (ext x)) cx && in_table (deftbl E) (lower (ext y)) cy)
+        || str_eqb cx cy
+    | _, _ => true
+    end) L) L.
